@@ -11,6 +11,7 @@ mod dynspec;
 mod gen;
 mod j;
 mod reader;
+mod rerun;
 mod rng;
 mod writer;
 
@@ -40,6 +41,7 @@ fn main() {
         "async" => drv_async::run(&mut out, seed, thorough),
         "paths_exhaustive" => drv_paths::exhaustive(&mut out, seed, if thorough { 1 } else { 8 }),
         d if d.starts_with("writer:") => drv_writer::run(&mut out, &d[7..], seed, thorough),
+        "rerun" => rerun::run(&mut out, &arg(&args, "--in").expect("--in FILE")),
         "reader:replay" => drv_reader::replay(&mut out, &arg(&args, "--in").expect("--in FILE")),
         d if d.starts_with("reader:") => drv_reader::run(&mut out, &d[7..], seed, thorough),
         x => { eprintln!("unknown driver {x}"); std::process::exit(2); }
